@@ -4,6 +4,7 @@ import (
 	"encoding/binary"
 	"errors"
 	"fmt"
+	"path/filepath"
 	"reflect"
 	"regexp"
 	"runtime"
@@ -463,6 +464,23 @@ func (e *Env) runRPC() error {
 		}
 		s.OnRequest = st.onRequest
 		dcs[id] = s.Addr()
+	}
+	if len(spec.OtherClientDCs) > 0 {
+		// what one client of a process is told about data centres is its own business
+		other := map[int]string{}
+		for _, id := range spec.OtherClientDCs {
+			s, err := e.AddServer(fmt.Sprintf("dc-%d", id))
+			if err != nil {
+				return err
+			}
+			s.OnRequest = st.onRequest
+			other[id] = s.Addr()
+		}
+		oc, err := mtproto.NewMTProto(mtproto.Config{AuthKeyFile: filepath.Join(e.Dir, "other-client-session.json"), ServerHost: clientHost, PublicKey: e.PublicKey()})
+		if err != nil {
+			return err
+		}
+		oc.SetDCList(other)
 	}
 	if err := e.NewClient(clientHost); err != nil {
 		return err
